@@ -15,7 +15,7 @@ MOD = "mc.props.c04"
 FIELD_SETS = [
     ["id"], ["name", "id"], ["id", "name", "kind"], ["kind", "amount", "day"], ["code", "tag", "const", "note"],
     ["id", "amount", "day", "code", "num"], ["num", "note"], ["const", "id", "kind", "tag", "name"], ["day", "num", "name"],
-    ["amount", "name"], ["tag", "code"], ["note", "kind", "id"], ["stamp", "id"], ["kind", "note"],
+    ["amount", "name"], ["tag", "code"], ["note", "kind", "id"], ["stamp", "id"], ["kind", "note"], ["pct", "name"],
 ]
 
 
@@ -32,6 +32,8 @@ def configs(tier):
                     checks.append(["uniq", "IsUnique", "id"])
                 if "kind" in fields:
                     checks.append(["dc", "DistinctCount", "kind < 3"])
+                if "amount" in fields and "id" not in fields:
+                    checks.append(["uniq amount", "IsUnique", "amount"])  # keys are the cell texts: 1.5 and 1.50 differ
                 config = {"preset": preset, "header": header, "fields": fields, "checks": checks}
                 if preset == "ods":
                     config["odf"] = {"col_runs": True}  # runs of equal cells are stored once, as office suites do
